@@ -8,6 +8,7 @@ response: <result is input> | input data afterwards | result data | result metad
 import DarsiaModel.Basic
 import DarsiaModel.Correction
 import DarsiaModel.Corrections
+import DarsiaModel.CorrHeap
 open Darsia Darsia.Correction Darsia.Corrections Darsia.Affine Darsia.Warp
 
 abbrev A := List Int
@@ -81,8 +82,9 @@ def runP {α} (p : P α) (toks : List String) : Option α := (p.run toks).map (f
 def handle2 : List String → Option String
   | "type" :: rest => runP (do
       let target ← pDT; let a ← pTArr; P.done
-      if (arr2ToList a.arr).all (convOk a.dt target) then pure (showTArr (typeCorr target a))
-      else pure "!ValueError") rest
+      match typeCorrE target a with
+      | .ok r => pure (showTArr r)
+      | .error er => pure er.show) rest
   | "trans" :: rest => runP (do
       let act ← P.bool; let tx ← P.int; let ty ← P.int; let a ← pTArr; P.done
       pure (showTArr (transCorrInt act tx ty a))) rest
@@ -100,7 +102,39 @@ def handle2 : List String → Option String
       let t ← pV2'; let σ ← P.rat; let ang ← P.rat
       let hist ← P.list pTArr; let a ← pTArr; P.done
       let T := Affine2.mk' t σ (cosT ang) (sinT ang)
-      pure (showTArr (transfRun mode T csS csD rnd none hist a))) rest
+      -- a call on an array that is too small for the source system raises (also inside the history)
+      match (hist ++ [a]).findSome? (fun x => match transfCorrE mode T csS csD rnd x with | .error er => some er | .ok _ => none) with
+      | some er => pure er.show
+      | none => pure (showTArr (transfRun mode T csS csD rnd none hist a))) rest
   | _ => none
 
-def main : IO Unit := runDriver fun toks => (handle toks).orElse fun _ => handle2 toks
+/-! ### round 3: operational heap workflow with an effectful toy `correct_array`
+hcall <original|work> <overwrite> <series> a b <inplace> <retarg> <nmeta> (k v)* <nupd> (k v)* <nslices> (<len> v..)*
+  toy correct_array: result a*x+b (computed first), optional in-place write x+100 into its argument, optionally returns its argument
+response: <result is input> | input buffer afterwards | result data | <result buffer is the input's buffer> | metadata of result -/
+def handle3 : List String → Option String
+  | "hcall" :: srcTok :: rest => runP (do
+      let ow ← P.bool; let series ← P.bool; let a ← P.int; let b ← P.int; let inpl ← P.bool; let retarg ← P.bool
+      let m ← P.list pKV; let u ← P.list pKV
+      let slices ← P.list (P.list P.int); P.done
+      let src : CorrHeap.SliceSrc := if srcTok = "original" then .original else .work
+      let e : CorrHeap.Eff := ⟨fun x => x.map fun v => a * v + b,
+        if inpl then some (fun x => x.map (· + 100)) else none, if retarg then .arg else .fresh⟩
+      let h : CorrHeap.Heap := ⟨1, fun _ => CorrHeap.bufOfList slices⟩
+      let o : CorrHeap.Obj M := ⟨7, 0, series, m⟩
+      let r := CorrHeap.callImage src e (fun _ => u) updM h o ow 8
+      let showBuf := fun (bf : CorrHeap.Buf) => " ".intercalate (bf.toList.map fun sl => "[" ++ showInts sl ++ "]")
+      pure (s!"{showBool (r.2.1.tag == o.tag)} | {showBuf (r.1.buf o.buf)} | {showBuf (r.1.buf r.2.1.buf)} | "
+        ++ s!"{showBool (r.2.1.buf == o.buf)} | {showM r.2.1.md}")) rest
+  | "harr" :: rest => runP (do
+      -- harr <overwrite> a b <inplace> <retarg> <len> v.. -> <returned is the caller's array> | caller's array afterwards | returned values
+      let ow ← P.bool; let a ← P.int; let b ← P.int; let inpl ← P.bool; let retarg ← P.bool
+      let x ← P.list P.int; P.done
+      let e : CorrHeap.Eff := ⟨fun x => x.map fun v => a * v + b,
+        if inpl then some (fun x => x.map (· + 100)) else none, if retarg then .arg else .fresh⟩
+      let h : CorrHeap.Heap := ⟨1, fun _ => CorrHeap.bufOfList [x]⟩
+      let r := CorrHeap.callArray e h 0 ow
+      pure (s!"{showBool (r.2 == 0)} | [{showInts ((r.1.buf 0).get 0)}] | [{showInts ((r.1.buf r.2).get 0)}]")) rest
+  | _ => none
+
+def main : IO Unit := runDriver fun toks => ((handle toks).orElse fun _ => handle2 toks).orElse fun _ => handle3 toks
